@@ -102,6 +102,11 @@ partial def loop (i o : IO.FS.Stream) (s : State) (tracked : List Nat) : IO Unit
     match parseInit f with
     | some s0 => o.putStrLn ("ok;" ++ observe s0 []); loop i o s0 []
     | none => o.putStrLn "bad-op init"; loop i o s tracked
+  | ["dump"] =>
+    let w := writeFile s
+    o.putStrLn (" ".intercalate (w.blocks.map fun b => toString b.1 ++ ":" ++ ",".intercalate (b.2.map toString))
+      ++ ";" ++ ",".intercalate (w.entities.map toString) ++ ";" ++ toString w.handseed)
+    loop i o s tracked
   | _ =>
     match parseOp f with
     | none => o.putStrLn "bad-op"; loop i o s tracked
